@@ -602,3 +602,47 @@ package raft
 //@   modifies *
 //@ loop 1
 //@   invariant r.raftLog == old(r.raftLog) && r.raftLog.committed == old(r.raftLog.committed) && r.Term == old(r.Term) && r.Vote == old(r.Vote) && r.id == old(r.id) && rOK(r)
+
+//@ property C02 C03
+// ---- the Ready hand-out: what must be persisted, what may be applied, and the applied cursor ----
+//@ func (l *raftLog) unstableEntries() []pb.Entry
+//@   requires l != nil
+//@   ensures len(result) == len(l.unstable.entries) && (len(result) > 0 ==> sameSlice(result, l.unstable.entries))
+//@ func (l *raftLog) hasMoreNextEnts(appliedTo uint64) bool
+//@   requires l != nil
+//@   ensures result <==> l.committed > appliedTo
+//@ func (r *raft) softState() *SoftState
+//@   requires r != nil
+//@   ensures result != nil && fresh(result) && result.Lead == r.lead && result.RaftState == r.state
+//@ func (a *SoftState) equal(b *SoftState) bool
+//@   trusted field-wise comparison of the volatile state
+// newReady: all unstable entries are handed out for persistence; the hard state is included whenever it differs
+// from the last persisted one; MustSync is set whenever entries, term or vote are new; committed entries start right
+// after the applied cursor and never pass the commit index
+//@ func newReady(r *raft, prevSoftSt *SoftState, prevHardSt pb.HardState, moreEntriesToApply bool) Ready
+//@   requires rOK(r) && lfirst(r.raftLog) - 1 <= r.raftLog.applied
+//@   ensures len(result.Entries) == len(r.raftLog.unstable.entries) && (len(result.Entries) > 0 ==> sameSlice(result.Entries, r.raftLog.unstable.entries))
+//@   ensures (r.Term != prevHardSt.Term || r.Vote != prevHardSt.Vote || r.raftLog.committed != prevHardSt.Commit) ==> result.HardState.Term == r.Term && result.HardState.Vote == r.Vote && result.HardState.Commit == r.raftLog.committed
+//@   ensures result.MustSync <==> (len(r.raftLog.unstable.entries) != 0 || r.Vote != prevHardSt.Vote || r.Term != prevHardSt.Term)
+//@   ensures forall k int :: 0 <= k && k < len(result.CommittedEntries) ==> result.CommittedEntries[k].Index == max(r.raftLog.applied + 1, lfirst(r.raftLog)) + k && result.CommittedEntries[k].Index <= r.raftLog.committed
+//@   ensures !moreEntriesToApply ==> len(result.CommittedEntries) == 0
+//@   ensures len(result.CommittedEntries) > 0 ==> (result.MoreCommittedEntries <==> r.raftLog.committed > result.CommittedEntries[len(result.CommittedEntries)-1].Index)
+//@   ensures r.raftLog.unstable.snapshot != nil ==> result.Snapshot.Metadata.Index == r.raftLog.unstable.snapshot.Metadata.Index
+// the applied cursor a Ready stands for: its last committed entry, else its snapshot, else nothing
+//@ func (rd Ready) appliedCursor() uint64
+//@   ensures len(rd.CommittedEntries) > 0 ==> result == rd.CommittedEntries[len(rd.CommittedEntries)-1].Index
+//@   ensures len(rd.CommittedEntries) == 0 ==> result == rd.Snapshot.Metadata.Index
+// Advance: the applied cursor moves exactly to what the Ready handed out (never backwards: appliedTo panics
+// otherwise), and only what that Ready carried is marked stable
+//@ func (l *raftLog) stableTo(i, t uint64)
+//@   inline
+//@ func (l *raftLog) stableSnapTo(i uint64)
+//@   inline
+//@ func (n *node) Advance(rd Ready)
+//@   requires n != nil && n.prevS != nil && rOK(n.r) && n.r.raftLog.unstable.logger == n.r.raftLog.logger && (forall k int :: 0 <= k && k < len(rd.CommittedEntries) ==> rd.CommittedEntries[k].Index >= 1)
+//@   ensures len(rd.CommittedEntries) > 0 ==> n.r.raftLog.applied == rd.CommittedEntries[len(rd.CommittedEntries)-1].Index
+//@   ensures len(rd.CommittedEntries) == 0 && rd.Snapshot.Metadata.Index != 0 ==> n.r.raftLog.applied == rd.Snapshot.Metadata.Index
+//@   ensures len(rd.CommittedEntries) == 0 && rd.Snapshot.Metadata.Index == 0 ==> n.r.raftLog.applied == old(n.r.raftLog.applied)
+//@   ensures n.r.raftLog.applied >= old(n.r.raftLog.applied) && n.r.raftLog.applied <= n.r.raftLog.committed || n.r.raftLog.applied == old(n.r.raftLog.applied)
+//@   ensures n.r.raftLog.committed == old(n.r.raftLog.committed) && !n.needAdvance
+//@   modifies *
